@@ -307,6 +307,8 @@ def runLine (line : String) : String :=
           r.name ++ " " ++ decode (PStateDriver.showProg (Lower.genRuleSym names i r)))
       | none => "bad-op"
     | _ => "bad-op"
+  -- C02: Unicode property built-ins are judged by the oracle only (generated parser vs VM); the tables are C16's
+  | "X" :: _ => "oracle-only"
   | "SO" :: ex :: rest =>
     -- C08, search step: the specified report for an OPTIMIZED rule set (read back as core expressions)
     match sexpParse rest with
